@@ -2096,6 +2096,202 @@ theorem Fp12.cycExp_of_cyclotomic [Fintype G] (p : ℕ) [Fact p.Prime] [CharP G 
   exact Fp12.cycExp_spec c6 hc hnc tbl B2 hB2 limbs s hn hs e he
 
 end gsmem
+/-! ## Frobenius hooks of the upper wrappers; the two-layer composition for `Fp4` -/
+
+section upper
+set_option linter.unusedSectionVars false
+variable {P F : Type} [Field F] [DecidableEq F]
+
+theorem Fp6bCfg.wrap_mulFrobCoeff (c : Fp6bCfg F) (h1 : c.frobC1.length = 6)
+    (h2 : c.frobC2.length = 6) (x y : F) (k : ℕ) :
+    c.wrap.mulFrobCoeff x y k =
+      .ok (x * c.frobC1.getD (k % 6) 0, y * c.frobC2.getD (k % 6) 0) := by
+  show obind (index c.frobC1 (k % 6)) _ = _
+  rw [index_mod_getD _ 6 h1 (by norm_num)]
+  show obind (index c.frobC2 (k % 6)) _ = _
+  rw [index_mod_getD _ 6 h2 (by norm_num)]
+  rfl
+
+/-- `Fp4ConfigWrapper`: the Frobenius hook `mul_assign_by_fp(C1[k % 4])` multiplies by the embedded
+    table entry -/
+theorem Fp4.cfg_mulFrobCoeff (c2 : Fp2Cfg F) {B : FieldD P F} (hB : BaseLawful B)
+    (hc : QuadLawful c2.wrap) (nr : Quad F) (tbl : List F) (h : tbl.length = 4)
+    (fe : Quad F) (k : ℕ) :
+    letI := Quad.commRing c2.wrap B hB hc
+    (Fp4.cfg c2 nr tbl).mulFrobCoeff fe k = .ok (fe * (⟨tbl.getD (k % 4) 0, 0⟩ : Quad F)) := by
+  show obind (index tbl (k % 4)) _ = Outcome.ok (Quad.mul c2.wrap B fe ⟨tbl.getD (k % 4) 0, 0⟩)
+  rw [index_mod_getD _ 4 h (by norm_num), Quad.mul_eq hB hc]
+  show Outcome.ok (Fp2.mulAssignByFp fe _) = _
+  congr 1
+  apply Quad.ext' <;> simp [Fp2.mulAssignByFp]
+
+/-- `Fp6ConfigWrapper` (2-over-3): hook `mul_assign_by_fp(C1[k % 6])` -/
+theorem Fp6a.cfg_mulFrobCoeff (c3 : Fp3Cfg F) (hc : CubicLawful c3.wrap) (nr : Cubic F)
+    (tbl : List F) (h : tbl.length = 6) (fe : Cubic F) (k : ℕ) :
+    letI := Cubic.commRing c3.wrap hc
+    (Fp6a.cfg c3 nr tbl).mulFrobCoeff fe k = .ok (fe * (⟨tbl.getD (k % 6) 0, 0, 0⟩ : Cubic F)) := by
+  show obind (index tbl (k % 6)) _ = Outcome.ok (Cubic.mul c3.wrap fe ⟨tbl.getD (k % 6) 0, 0, 0⟩)
+  rw [index_mod_getD _ 6 h (by norm_num), Cubic.mul_eq hc]
+  show Outcome.ok (Fp3.mulAssignByFp fe _) = _
+  congr 1
+  apply Cubic.ext' <;> simp [Fp3.mulAssignByFp]
+
+/-- `Fp12ConfigWrapper`: hook `mul_assign_by_fp2(C1[k % 12])` -/
+theorem Fp12.cfg_mulFrobCoeff (c6 : Fp6bCfg F) (hc : CubicLawful c6.wrap) (nr : Cubic F)
+    (tbl : List F) (h : tbl.length = 12) (fe : Cubic F) (k : ℕ) :
+    letI := Cubic.commRing c6.wrap hc
+    (Fp12.cfg c6 nr tbl).mulFrobCoeff fe k = .ok (fe * (⟨tbl.getD (k % 12) 0, 0, 0⟩ : Cubic F)) := by
+  show obind (index tbl (k % 12)) _ = Outcome.ok (Cubic.mul c6.wrap fe ⟨tbl.getD (k % 12) 0, 0, 0⟩)
+  rw [index_mod_getD _ 12 h (by norm_num), Cubic.mul_eq hc]
+  show Outcome.ok (Fp6b.mulByFp2 fe _) = _
+  congr 1
+  apply Cubic.ext' <;> simp [Fp6b.mulByFp2]
+
+/-- the hooks of `Fp4ConfigWrapper` are lawful for `NONRESIDUE = X = (0,1)` -/
+theorem Fp4.cfg_lawful (c2 : Fp2Cfg F) {B : FieldD P F} (hB : BaseLawful B)
+    (hc : QuadLawful c2.wrap) (hnr : ∀ x : F, x * x ≠ c2.wrap.nonresidue) (tbl : List F) :
+    @QuadLawful (Quad F) (Quad.field c2.wrap B hB hc hnr) (Fp4.cfg c2 ⟨0, 1⟩ tbl) := by
+  letI := Quad.field c2.wrap B hB hc hnr
+  have hm : ∀ x : Quad F, Fp4.mulFp2ByNr c2 x = Quad.mul c2.wrap B ⟨0, 1⟩ x := by
+    intro x
+    rw [Quad.mul_eq hB hc]
+    have := hc.mulNr x.c1
+    apply Quad.ext' <;> simp [Fp4.mulFp2ByNr]
+    exact this
+  refine ⟨?_, ?_, ?_, ?_⟩
+  · intro x; exact hm x
+  · intro y x
+    show Fp4.mulFp2ByNr c2 y + x = x + Quad.mul c2.wrap B ⟨0, 1⟩ y
+    rw [hm, add_comm]
+  · intro y x
+    show Fp4.mulFp2ByNr c2 y + x + y = x + Quad.mul c2.wrap B ⟨0, 1⟩ y + y
+    rw [hm, add_comm x]
+  · intro y x
+    show x - Fp4.mulFp2ByNr c2 y = x - Quad.mul c2.wrap B ⟨0, 1⟩ y
+    rw [hm]
+
+
+/-- **Frobenius of `Fp4 = Fp2[Y]/(Y² - X)` over the prime field** — the two-layer composition of
+    `Quad.frob_eq_pow`: with `Fp2` tables as in `Fp2.frob_eq_pow` and the four-entry table
+    `C1[i] = X^((p^i-1)/2)` (an element of the prime field embedded in `Fp2`),
+    `frobenius_map(k) = a ↦ a^(p^k)` on `Fp4`. -/
+theorem Fp4.frob_eq_pow [Fintype F] (p : ℕ) [Fact p.Prime] [CharP F p] (hp2 : p % 2 = 1)
+    (hcard : Fintype.card F = p) (c2 : Fp2Cfg F) (hc2 : QuadLawful c2.wrap)
+    (hnr2 : ∀ x : F, x * x ≠ c2.wrap.nonresidue)
+    (hlen2 : c2.frobC1.length = 2)
+    (htbl2 : ∀ i, i < 2 → c2.frobC1.getD i 0 = c2.nonresidue ^ ((p ^ i - 1) / 2))
+    (tbl4 : List F) (hlen4 : tbl4.length = 4)
+    (hnr4 : letI := Quad.field c2.wrap (primeD F) primeD_lawful hc2 hnr2
+      ∀ x : Quad F, x * x ≠ ⟨0, 1⟩)
+    (htbl4 : letI := Quad.field c2.wrap (primeD F) primeD_lawful hc2 hnr2
+      ∀ i, i < 4 → (⟨tbl4.getD i 0, 0⟩ : Quad F) = (⟨0, 1⟩ : Quad F) ^ ((p ^ i - 1) / 2))
+    (a : Quad (Quad F)) (k : ℕ) :
+    letI := Quad.field c2.wrap (primeD F) primeD_lawful hc2 hnr2
+    letI := Quad.commRing (Fp4.cfg c2 ⟨0, 1⟩ tbl4) (Quad.fieldD c2.wrap (primeD F))
+      (Quad.fieldD_baseLawful primeD_lawful hc2 hnr2) (Fp4.cfg_lawful c2 primeD_lawful hc2 hnr2 tbl4)
+    Quad.frob (Fp4.cfg c2 ⟨0, 1⟩ tbl4) (Quad.fieldD c2.wrap (primeD F)) a k = .ok (a ^ p ^ k) := by
+  letI := Quad.field c2.wrap (primeD F) primeD_lawful hc2 hnr2
+  haveI : CharP (Quad F) p := Quad.charP primeD_lawful hc2 p
+  have hB2 := Quad.fieldD_baseLawful (B := primeD F) primeD_lawful hc2 hnr2
+  have hc4 := Fp4.cfg_lawful c2 (B := primeD F) primeD_lawful hc2 hnr2 tbl4
+  refine Quad.frob_eq_pow p hp2 hB2 hc4 ?_ 4 (fun i => (⟨tbl4.getD i 0, 0⟩ : Quad F)) ?_ htbl4
+    (by norm_num) ?_ a k
+  · intro x k
+    exact Fp2.frob_eq_pow p hp2 hcard c2 hc2 hnr2 hlen2 htbl2 x k
+  · intro fe k
+    exact Fp4.cfg_mulFrobCoeff c2 primeD_lawful hc2 ⟨0, 1⟩ tbl4 hlen4 fe k
+  · exact Quad.pow_period hB2 hc4 hnr4 p 4 (by rw [Quad.card, hcard]; ring)
+
+end upper
+
+
+/-! ## sharpness lemmas and small corollaries used by `Ark.Props.C02b` -/
+
+section sharp
+set_option linter.unusedSectionVars false
+variable {P F : Type} [Field F] [DecidableEq F]
+
+/-- if `β = x²` then `(x, 1) ≠ 0` has norm zero and `inverse` returns `None` on it -/
+theorem Quad.inverse_none_of_square {cfg : QuadCfg F} {B : FieldD P F} (hB : BaseLawful B)
+    (hc : QuadLawful cfg) (x : F) (hx : x * x = cfg.nonresidue) :
+    (⟨x, 1⟩ : Quad F) ≠ 0 ∧ Quad.inverse cfg B ⟨x, 1⟩ = .ok none := by
+  have hn : Quad.norm cfg B (⟨x, 1⟩ : Quad F) = 0 := by
+    rw [Quad.norm_eq hB hc, ← hx]; ring
+  refine ⟨fun h => one_ne_zero (congrArg Quad.c1 h), ?_⟩
+  unfold Quad.inverse
+  have h1 : ¬ ((⟨x, 1⟩ : Quad F).c0 = 0 ∧ (⟨x, 1⟩ : Quad F).c1 = 0) := fun h => one_ne_zero h.2
+  rw [if_neg h1]
+  show obind (B.inverse (Quad.norm cfg B ⟨x, 1⟩)) _ = _
+  rw [hn, hB.inverse, if_pos rfl]
+  rfl
+
+/-- if `β = x³` the `unwrap` of `CubicExtField::inverse` panics on `(-x, 1, 0) ≠ 0` -/
+theorem Cubic.inverse_panic_of_cube {cfg : CubicCfg F} {B : FieldD P F} (hB : BaseLawful B)
+    (hc : CubicLawful cfg) (x : F) (hx : x ^ 3 = cfg.nonresidue) :
+    Cubic.inverse cfg B (⟨-x, 1, 0⟩ : Cubic F) = .panic := by
+  unfold Cubic.inverse
+  have h1 : ¬ ((⟨-x, 1, 0⟩ : Cubic F).c0 = 0 ∧ (⟨-x, 1, 0⟩ : Cubic F).c1 = 0 ∧
+      (⟨-x, 1, 0⟩ : Cubic F).c2 = 0) := fun h => one_ne_zero h.2.1
+  rw [if_neg h1]
+  simp only [hc.mulNr, hB.square]
+  have e : -x * (-x * -x - cfg.nonresidue * (1 * 0)) +
+      cfg.nonresidue * (0 * (cfg.nonresidue * (0 * 0) - -x * 1) + 1 * (1 * 1 - -x * 0)) = 0 := by
+    rw [← hx]; ring
+  rw [e, hB.inverse, if_pos rfl]
+  rfl
+
+/-- a truncated `FROBENIUS_COEFF_FP2_C1` makes `frobenius_map` panic for `power = len` -/
+theorem Fp2.frob_panic_of_short_table (c : Fp2Cfg F) (B : FieldD P F)
+    (hB : ∀ x k, B.frob x k ≠ .panic) (hlen : c.frobC1.length < 2) (a : Quad F) :
+    Quad.frob c.wrap B a c.frobC1.length = .panic := by
+  unfold Quad.frob
+  cases h0 : B.frob a.c0 c.frobC1.length with
+  | panic => exact absurd h0 (hB _ _)
+  | ok x0 =>
+    cases h1 : B.frob a.c1 c.frobC1.length with
+    | panic => exact absurd h1 (hB _ _)
+    | ok x1 =>
+      show obind (obind (index c.frobC1 (c.frobC1.length % 2)) _) _ = _
+      rw [index_mod_panic _ 2 hlen]
+      rfl
+
+/-- in the field structure: `cyclotomic_inverse a = some a⁻¹` on unitary `a` -/
+theorem cycInverse_conj_inv {cfg : QuadCfg F} {B : FieldD P F} (hB : BaseLawful B)
+    (hc : QuadLawful cfg) (hnr : ∀ x : F, x * x ≠ cfg.nonresidue) (D : FieldD P (Quad F))
+    (cs : Option (Quad F → Quad F)) (a : Quad F) (hn : Quad.norm cfg B a = 1) :
+    letI := Quad.field cfg B hB hc hnr
+    (CycD.conj D cs).cycInverse a = .ok (some a⁻¹) := by
+  letI := Quad.field cfg B hB hc hnr
+  rw [cycInverse_conj hB hc D cs a hn]
+  congr 2
+  exact eq_inv_of_mul_eq_one_right (Quad.mul_conj_of_norm_one hB hc a hn)
+
+theorem cycInverse_conj_zero (D : FieldD P (Quad F)) (cs : Option (Quad F → Quad F)) :
+    (CycD.conj D cs).cycInverse (0 : Quad F) = .ok none := by
+  show (if (0 : Quad F).c0 = 0 ∧ (0 : Quad F).c1 = 0 then _ else _) = _
+  rw [if_pos ⟨rfl, rfl⟩]
+
+/-- Granger–Scott (both branches of the guard) against the model's `Fp12` multiplication -/
+theorem Fp12.cycSquare_eq_mul {G : Type} [Field G] [DecidableEq G]
+    (c6 : Fp6bCfg G) (hc : CubicLawful c6.wrap)
+    (hnc : ∀ x : G, x ^ 3 ≠ c6.wrap.nonresidue) (tbl : List G)
+    (B2 : FieldD P G) (hB2 : BaseLawful B2) (limbs : List Nat)
+    (s : Quad (Cubic G)) (hs : GSRel c6.wrap.nonresidue s) :
+    letI := Cubic.field c6.wrap hc hnc
+    Fp12.cycSquare c6 B2.double
+        (Quad.fieldD (Fp12.cfg c6 ⟨0, 1, 0⟩ tbl) (Cubic.fieldD c6.wrap B2)).square limbs s =
+      Quad.mul (Fp12.cfg c6 ⟨0, 1, 0⟩ tbl) (Cubic.fieldD c6.wrap B2) s s := by
+  letI := Cubic.field c6.wrap hc hnc
+  cases hl : charSquareMod6IsOne limbs with
+  | true =>
+    rw [Fp12.cycSquare_eq_mul12 c6 hc B2.double hB2.double _ limbs hl s hs,
+      Fp12.mul_eq_mul12 c6 hc hnc tbl B2 hB2]
+  | false =>
+    rw [Fp12.cycSquare_fallback c6 _ _ limbs hl]
+    exact Quad.square_eq (Cubic.fieldD_baseLawful hB2 hc hnc) (Fp12.cfg_lawful c6 hc hnc tbl) s
+
+end sharp
+
 /-! ## concrete instances over `ZMod 7` (for the non-vacuity examples of `Ark.Props.C02b`) -/
 
 section zmod7
@@ -2123,7 +2319,44 @@ theorem nonsq7_neg : ∀ x : ZMod 7, x * x ≠ c7neg.wrap.nonresidue := by decid
 theorem nonsq7_three : ∀ x : ZMod 7, x * x ≠ c7three.wrap.nonresidue := by decide
 theorem noncube7 : ∀ x : ZMod 7, x ^ 3 ≠ c7cub.wrap.nonresidue := by decide
 theorem noncube7six : ∀ x : ZMod 7, x ^ 3 ≠ c7six.wrap.nonresidue := by decide
+theorem nonsq7six : ∀ x : ZMod 7, x * x ≠ c7six.wrap.nonresidue := by decide
 
 end zmod7
+
+/-! ## a concrete `Fp4` over `ZMod 5` -/
+
+section zmod5
+instance fact5 : Fact (Nat.Prime 5) := ⟨by decide⟩
+/-- `Fp2 = F₅[X]/(X² - 2)`, `C1 = [1, 2^2]` -/
+def c5two : Fp2Cfg (ZMod 5) := Fp2Cfg.default 2 [1, 4]
+theorem c5two_lawful : QuadLawful c5two.wrap := Fp2Cfg.default_wrap_lawful _ _
+theorem nonsq5 : ∀ x : ZMod 5, x * x ≠ c5two.wrap.nonresidue := by decide
+/-- the `Fp4` Frobenius table over `F₅`: `X^((5^i-1)/2) = 2^((5^i-1)/4)` -/
+def tbl5 : List (ZMod 5) := [1, 2, 4, 3]
+
+theorem nonsq5_4 :
+    letI := Quad.field c5two.wrap (primeD (ZMod 5)) primeD_lawful c5two_lawful nonsq5
+    ∀ x : Quad (ZMod 5), x * x ≠ ⟨0, 1⟩ := by
+  intro x
+  show Quad.mul c5two.wrap (primeD (ZMod 5)) x x ≠ ⟨0, 1⟩
+  obtain ⟨x0, x1⟩ := x
+  revert x0 x1
+  decide
+
+theorem tbl5_ok :
+    letI := Quad.field c5two.wrap (primeD (ZMod 5)) primeD_lawful c5two_lawful nonsq5
+    ∀ i, i < 4 → (⟨tbl5.getD i 0, 0⟩ : Quad (ZMod 5)) = (⟨0, 1⟩ : Quad (ZMod 5)) ^ ((5 ^ i - 1) / 2) := by
+  letI := Quad.field c5two.wrap (primeD (ZMod 5)) primeD_lawful c5two_lawful nonsq5
+  have hX2 : ∀ m : ℕ, (⟨0, 1⟩ : Quad (ZMod 5)) ^ (2 * m) = ⟨2 ^ m, 0⟩ := by
+    intro m
+    rw [pow_mul, pow_two, Quad.X_mul_X primeD_lawful c5two_lawful, ← map_pow]
+    rfl
+  intro i hi
+  interval_cases i
+  · rfl
+  · rw [show (5 ^ 1 - 1) / 2 = 2 * 1 by norm_num, hX2]; rfl
+  · rw [show (5 ^ 2 - 1) / 2 = 2 * 6 by norm_num, hX2]; decide
+  · rw [show (5 ^ 3 - 1) / 2 = 2 * 31 by norm_num, hX2]; decide
+end zmod5
 
 end Ark.ExtB
